@@ -1020,6 +1020,8 @@ func TestC17(t *testing.T) {
 	run.Finish(t)
 }
 
+var errNotStarted = errors.New("never started by the harness")
+
 func TestC17Race(t *testing.T) {
 	run := vt.NewRun("C17", "exploration")
 	run.SetRule("concurrent mode under the race detector: actions on the services of a manager fired from one goroutine per service without global waiting; at quiescence the same model comparison as in step mode. Generator start-stop-race: StartAsync and StopAsync of fresh idle services released at the same moment from two goroutines; a returned stop request is never lost.")
@@ -1047,11 +1049,30 @@ func TestC17Race(t *testing.T) {
 			}
 			gate := make(chan struct{})
 			var wg sync.WaitGroup
-			for _, it := range items {
+			for ii, it := range items {
 				it := it
 				wg.Add(2)
-				go func() { defer wg.Done(); <-gate; it.startErr = it.svc.StartAsync(context.Background()) }()
-				go func() { defer wg.Done(); <-gate; it.svc.StopAsync() }()
+				_ = ii
+				// a third of the services get a second concurrent StopAsync, a third two StopAsync and no StartAsync
+				mode := (int(c.Idx) + ii) % 3
+				if mode != 2 {
+					go func() { defer wg.Done(); <-gate; it.startErr = it.svc.StartAsync(context.Background()) }()
+				} else {
+					it.startErr = errNotStarted
+					wg.Done()
+				}
+				stop := func() {
+					defer wg.Done()
+					<-gate
+					if p, stack := vt.Recover(func() { it.svc.StopAsync() }); p != nil {
+						run.Violation(c, "service/stopasync-panicked", fmt.Sprintf("StopAsync panicked while racing another StopAsync/StartAsync on a fresh service: %v", p), map[string]any{"stack": stack})
+					}
+				}
+				go stop()
+				if mode != 0 {
+					wg.Add(1)
+					go stop()
+				}
 			}
 			close(gate)
 			wg.Wait()
